@@ -43,7 +43,13 @@ Fmt ==
              <<Ev.st2 = "ok" /\ Ev.back2 = Ev.s2, "parsing the formatted move back gives the same move", exp>> >>)
      /\ Count("accept")
 
-Next == l <= Len(Rec) /\ l' = l + 1 /\ (Line \/ Move \/ Fmt)
+\* the harness process died while handling this case
+Panic ==
+  /\ Ev.ev = "panic"
+  /\ Record(<< <<FALSE, "process aborted during " \o Ev.during \o ": " \o Ev.msg, "no abort">> >>)
+  /\ UNCHANGED <<ntr, ncls>>
+
+Next == l <= Len(Rec) /\ l' = l + 1 /\ ((Line \/ Move \/ Fmt) \/ Panic)
 Init == l = 1 /\ bad = <<>> /\ nbad = 0 /\ ntr = {} /\ ncls = [c \in {"accept", "reject", "dontcare"} |-> 0]
 Spec == Init /\ [][Next]_vars
 Report == (l = Len(Rec) + 1) => JsonSerialize(IOEnv.OUT, [lines |-> Len(Rec), nbad |-> nbad, bad |-> bad, ntr |-> ntr, ncls |-> ncls])
